@@ -151,8 +151,12 @@ pub fn make_config(cfg: &CfgBits, hooks: &Hooks) -> ModuleConfig {
     c.only_stable_features(cfg.only_stable);
     c.strict_validate(cfg.strict);
     c.preserve_code_transform(cfg.code_transform);
-    // generate_dwarf(true) implies preserve_code_transform; set it last like a user would
+    // generate_dwarf(true) implies preserve_code_transform; set it last like a user would ...
     c.generate_dwarf(cfg.dwarf);
+    if cfg.late_code_transform {
+        // ... or not: a later preserve_code_transform(false) wins over the implication
+        c.preserve_code_transform(cfg.code_transform);
+    }
     if cfg.on_parse || cfg.probe {
         let calls = hooks.on_parse_calls.clone();
         let probe = cfg.probe;
